@@ -19,6 +19,12 @@ const FILLER: &[&str] = &["lorem", "ipsum", "dolor", "amet", "tempor", "magna", 
 const TAGS: &[&str] = &["red", "blue", "Green", "work"];
 const LABELS: &[&str] = &["todo", "Done", "note"];
 const TRACKS: &[&str] = &["main", "Side"];
+/// hierarchical URIs: proper prefixes of each other, sibling prefixes (`a/b` vs `a/bc`, `a` vs `ab`), mixed case
+const NESTED_URIS: &[&str] = &["mv2://c10/a", "mv2://c10/a/b", "mv2://c10/a/b/c", "mv2://c10/a/bc", "mv2://c10/ab", "mv2://c10/b",
+    "mv2://C10/A/B/d", "mv2://c10"];
+/// values for `scope:` / `uri:` terms and request.scope / request.uri: longer than, equal to and shorter than frame URIs
+const URI_VALUES: &[&str] = &["mv2://c10/a", "mv2://c10/a/", "mv2://c10/a/b", "mv2://c10/a/b/", "mv2://c10/a/b/c", "mv2://c10/a/b/c/d", "mv2://c10/a/bc",
+    "mv2://c10/a/bcd", "mv2://c10/ab", "mv2://c10/abc", "mv2://c10", "mv2://c1", "mv2://c10/b", "MV2://C10/A/B", "mv2://C10/a/B/C", "mv2://c10/A/b/d", "mv2://c10/a/b/d/e"];
 const DATES_IN_TEXT: &[&str] = &["2019", "2021-06-15", "2023-11-02", "2020-02-29"];
 
 // ------------------------------------------------------------------------------------------ query AST
@@ -136,9 +142,8 @@ fn eval_ast(a: &Ast, f: &Frame, content_lower: &str) -> bool {
         Ast::Wild(p) => glob(&p.to_ascii_lowercase().chars().collect::<Vec<_>>(), &content_lower.chars().collect::<Vec<_>>()),
         Ast::Field(k, v) => match k.as_str() {
             "uri" => f.uri.as_deref().is_some_and(|u| ieq(u, v)),
-            // the parser lower-cases the value; frames of this harness carry lower-case URIs, so the
-            // case-sensitivity question of `scope:` (property C32) does not arise here
-            "scope" => f.uri.as_deref().is_some_and(|u| u.starts_with(&v.to_ascii_lowercase())),
+            // `scope:` = the frame's URI starts with the value, ignoring ASCII case
+            "scope" => f.uri.as_deref().is_some_and(|u| u.to_ascii_lowercase().starts_with(&v.to_ascii_lowercase())),
             "track" => f.track.as_deref().is_some_and(|t| ieq(t, v)),
             "tag" => f.tags.iter().any(|t| ieq(t, v)),
             "label" => f.labels.iter().any(|t| ieq(t, v)),
@@ -243,7 +248,8 @@ fn gen_doc(rng: &mut Rng, n: usize) -> DocSpec {
     let pick_some = |rng: &mut Rng, xs: &[&str], p: u64| -> Vec<String> { xs.iter().filter(|_| rng.chance(1, p)).map(|s| s.to_string()).collect() };
     DocSpec {
         text: gen_text(rng, nwords),
-        uri: if bare || rng.chance(1, 5) { None } else { Some(format!("mv2://c10/{}/doc{}", rng.pick(&["a", "b", "ab"]), n)) },
+        uri: if bare || rng.chance(1, 6) { None } else if rng.chance(1, 2) { Some(rng.pick(NESTED_URIS).to_string()) }
+            else { Some(format!("mv2://c10/{}/doc{}", rng.pick(&["a", "b", "ab", "a/b"]), n)) },
         tags: if bare { vec![] } else { pick_some(rng, TAGS, 3) },
         labels: if bare { vec![] } else { pick_some(rng, LABELS, 4) },
         track: if bare || rng.chance(2, 3) { None } else { Some(rng.pick(TRACKS).to_string()) },
@@ -256,22 +262,23 @@ fn gen_doc(rng: &mut Rng, n: usize) -> DocSpec {
 
 fn gen_leaf_field(rng: &mut Rng, uris: &[String]) -> Ast {
     match rng.below(4) {
-        0 => Ast::Field("scope".into(), (*rng.pick(&["mv2://frames", "mv2://c10/", "mv2://c10/a"])).into()),
-        1 => Ast::Field("uri".into(), if uris.is_empty() { "mv2://frames/0".into() } else { rng.pick(uris).clone() }),
+        0 => Ast::Field("scope".into(), if rng.chance(1, 4) { "mv2://frames".into() } else { rng.pick(URI_VALUES).to_string() }),
+        1 => Ast::Field("uri".into(), if uris.is_empty() { "mv2://frames/0".into() } else if rng.chance(1, 3) { rng.pick(URI_VALUES).to_string() } else { rng.pick(uris).clone() }),
         2 => Ast::Field("tag".into(), rng.pick(TAGS).to_string()),
         _ => Ast::Date("2018".into(), "*".into()),
     }
 }
 fn gen_leaf(rng: &mut Rng, uris: &[String]) -> Ast {
-    match rng.below(20) {
+    match rng.below(21) {
         0..=7 => Ast::Word(if rng.chance(1, 8) { rng.pick(ABSENT).to_string() } else {
             let w = rng.pick(WORDS).to_string();
             if rng.chance(1, 6) { w.to_uppercase() } else if rng.chance(1, 8) { w.chars().take(3).collect() } else { w }
         }),
         8..=9 => Ast::Phrase(format!("{} {}", if rng.bool() { rng.pick(WORDS) } else { rng.pick(FILLER) }, if rng.bool() { rng.pick(WORDS) } else { rng.pick(FILLER) })),
-        10 => Ast::Field("uri".into(), if uris.is_empty() || rng.chance(1, 5) { "mv2://c10/a/doc99".into() } else {
+        10 => Ast::Field("uri".into(), if uris.is_empty() || rng.chance(1, 8) { "mv2://c10/a/doc99".into() } else if rng.chance(1, 3) { rng.pick(URI_VALUES).to_string() } else {
             let u = rng.pick(uris).clone(); if rng.chance(1, 4) { u.to_uppercase() } else { u } }),
-        11 => Ast::Field("scope".into(), (*rng.pick(&["mv2://c10/a", "mv2://c10/ab", "mv2://c10/", "mv2://frames", "MV2://C10/b", "mv2://none"])).into()),
+        11 | 19 => Ast::Field("scope".into(), if rng.chance(1, 5) { (*rng.pick(&["mv2://frames", "mv2://none", "mv2://frames/1"])).into() } else {
+            let v = rng.pick(URI_VALUES).to_string(); if rng.chance(1, 5) { v.to_uppercase() } else { v } }),
         12..=13 => Ast::Field("tag".into(), { let t = rng.pick(TAGS).to_string(); if rng.chance(1, 3) { t.to_uppercase() } else { t } }),
         14 => Ast::Field("label".into(), { let t = rng.pick(LABELS).to_string(); if rng.chance(1, 3) { t.to_lowercase() } else { t } }),
         15 => Ast::Field("track".into(), rng.pick(TRACKS).to_lowercase()),
@@ -300,8 +307,9 @@ fn gen_req(rng: &mut Rng, uris: &[String]) -> Req {
         1 => Ast::And(false, Box::new(gen_leaf_field(rng, uris)), Box::new(Ast::Not(Box::new(Ast::Wild("*zzyzx*".into()))))),
         _ => gen_ast(rng, 3, uris),
     };
-    let uri = if rng.chance(1, 6) { Some(if uris.is_empty() || rng.chance(1, 3) { (*rng.pick(&["mv2://c10/a", "mv2://c10/", "MV2://C10/AB", "mv2://frames/1", "mv2://c10/a/doc1#x"])).to_string() } else { rng.pick(uris).clone() }) } else { None };
-    let scope = if rng.chance(1, 6) { Some((*rng.pick(&["mv2://c10/a", "mv2://c10/b", "mv2://frames", "mv2://c10/"])).to_string()) } else { None };
+    let uri = if rng.chance(1, 5) { Some(if uris.is_empty() || rng.chance(1, 4) { (*rng.pick(&["mv2://c10/", "MV2://C10/AB", "mv2://frames/1", "mv2://c10/a/doc1#x", "mv2://c10/a/b#page-1"])).to_string() }
+        else if rng.chance(1, 2) { rng.pick(URI_VALUES).to_string() } else { rng.pick(uris).clone() }) } else { None };
+    let scope = if rng.chance(1, 5) { Some(if rng.chance(1, 4) { (*rng.pick(&["mv2://frames", "mv2://c10/"])).to_string() } else { rng.pick(URI_VALUES).to_string() }) } else { None };
     let cursor = match rng.below(14) { 0 => Some("0".into()), 1 => Some(format!("{}", rng.usize(1, 4))), 2 => Some("abc".into()), 3 => Some(" 1 ".into()), 4 => Some("999".into()), _ => None };
     Req { ast, top_k: *rng.pick(&[0usize, 1, 1, 2, 3, 5, 10, 10, 50]), snippet: *rng.pick(&[0usize, 40, 80, 120, 200]), uri, scope, cursor, follow: rng.chance(1, 3) }
 }
@@ -613,6 +621,23 @@ fn fixed_corpus() -> Vec<(&'static str, Vec<Op>)> {
             Op::Commit,
             Op::Search(rq(Ast::Word("kiwi".into()), None, None)),
         ]),
+        ("nested-uris", {
+            let doc = |text: &str, uri: &str| DocSpec { text: text.into(), uri: Some(uri.into()), tags: vec![], labels: vec![], track: None, ts: 1_600_000_000, instant: false, explicit_text: true, auto: false };
+            let sc = |v: &str| Ast::Field("scope".into(), v.into());
+            let w = |t: &str| Box::new(Ast::Word(t.into()));
+            let mut ops = vec![Op::Put(doc("alpha root", "mv2://c10/n")), Op::Put(doc("alpha child", "mv2://c10/n/x")), Op::Put(doc("alpha grandchild", "mv2://c10/n/x/y")),
+                Op::Put(doc("alpha sibling", "mv2://c10/n/xy")), Op::Put(doc("alpha mixed", "mv2://C10/N/x/Z")), Op::Commit];
+            for v in ["mv2://c10/n", "mv2://c10/n/x", "mv2://c10/n/x/", "mv2://c10/n/x/y", "mv2://c10/n/x/y/z", "mv2://c10/n/xyz", "MV2://C10/N/X", "mv2://c10/n/x/z/q"] {
+                ops.push(Op::Search(rq(sc(v), None, None)));
+                ops.push(Op::Search(rq(Ast::And(false, w("alpha"), Box::new(sc(v))), None, None)));
+                ops.push(Op::Search(rq(Ast::And(false, w("alpha"), Box::new(Ast::Not(Box::new(sc(v))))), None, None)));
+                ops.push(Op::Search(rq(Ast::Field("uri".into(), v.into()), None, None)));
+                ops.push(Op::Search(rq(Ast::Word("alpha".into()), None, Some(v))));
+                ops.push(Op::Search(rq(Ast::Word("alpha".into()), Some(v), None)));
+                ops.push(Op::Search(rq(Ast::And(false, Box::new(sc(v)), Box::new(Ast::Not(Box::new(Ast::Wild("*zzyzx*".into()))))), None, Some(v))));
+            }
+            ops
+        }),
         ("superseded-frame", vec![
             Op::Put(bare("gamma old version", 1_600_000_000)), Op::Put(bare("gamma other", 1_600_000_100)), Op::Commit,
             Op::Update(0, bare("gamma new version", 1_600_000_300)),
